@@ -22,6 +22,7 @@ def run(ctx):
     ar.fresh_part_rule(ctx, 'R7.2')
     ar.no_remove_rename_rule(ctx, 'R7.3')
     ar.compat_checks_rule(ctx, 'R7.4')
+    ar.parts_first_rule(ctx, 'R7.9')
     ar.index_normalisation_rule(ctx, 'R7.6')
     from . import c02
     c02.r21(ctx)
